@@ -39,10 +39,14 @@ type tickModel struct {
 	subs     []string // subscription order; "balance" is there from deployment
 	lastBlk  int
 	lockLive bool // the lock created during setup (until = 2) has not been released yet
+	// what the last tick of this path published (both formats); nil until the path has ticked
+	pubSet     bool
+	pubL, pubV []string
 }
 
 func (m *tickModel) Clone() Model {
-	c := &tickModel{epoch: m.epoch, legacy: map[int]cand{}, v2: map[int]cand{}, subs: append([]string{}, m.subs...), lastBlk: m.lastBlk, lockLive: m.lockLive}
+	c := &tickModel{epoch: m.epoch, legacy: map[int]cand{}, v2: map[int]cand{}, subs: append([]string{}, m.subs...), lastBlk: m.lastBlk, lockLive: m.lockLive,
+		pubSet: m.pubSet, pubL: append([]string{}, m.pubL...), pubV: append([]string{}, m.pubV...)}
 	for k, v := range m.legacy {
 		c.legacy[k] = v
 	}
@@ -251,9 +255,6 @@ func (d *TickDriver) Step(x *Exec, n *Node, i int) StepResult {
 	o := d.ops[i]
 	h := w.Contracts["netmap"].Hash
 	where := map[string]any{"op": o.kind, "signer": o.signer}
-	if o.kind == "newEpoch" && o.target(m.epoch) >= 1<<32 {
-		where["epoch_beyond_32_bits"] = true
-	}
 	viol := func(class, msg string) StepResult {
 		return StepResult{V: Viol(class, msg, where), Outcome: "violation"}
 	}
@@ -484,11 +485,45 @@ func (d *TickDriver) Step(x *Exec, n *Node, i int) StepResult {
 		if g := set(rd("snapshot", int64(0))); fmt.Sprint(g) != fmt.Sprint(wantL) {
 			return viol("published-legacy", fmt.Sprintf("snapshot(0)=%v candidates %v", g, wantL))
 		}
+		// the known finding explains exactly one surplus: the nodes that were stored under epoch mod 2^32 before
+		// this tick; any other mismatch beyond 32 bits is a violation like everywhere else
+		explain := func(g []string) {
+			if nm.epoch < 1<<32 {
+				return
+			}
+			al := set(w.Read(n.L, n.H, n.TS, h, "listNodes", int64(nm.epoch%(1<<32))))
+			u := map[string]bool{}
+			for _, e := range append(append([]string{}, wantV...), al...) {
+				u[e] = true
+			}
+			var ul []string
+			for e := range u {
+				ul = append(ul, e)
+			}
+			sort.Strings(ul)
+			if fmt.Sprint(g) == fmt.Sprint(ul) {
+				where["epoch_beyond_32_bits"] = true
+			}
+		}
 		if g := set(rd("listNodes", int64(nm.epoch))); fmt.Sprint(g) != fmt.Sprint(wantV) {
+			explain(g)
 			return viol("published-v2", fmt.Sprintf("listNodes(%d)=%v candidates %v", nm.epoch, g, wantV))
 		}
 		if g := set(rd("listNodes")); fmt.Sprint(g) != fmt.Sprint(wantV) {
+			explain(g)
 			return viol("published-v2", fmt.Sprintf("listNodes()=%v candidates %v", g, wantV))
+		}
+		nm.pubSet, nm.pubL, nm.pubV = true, wantL, wantV
+	} else if nm.pubSet {
+		// between ticks the published map stays what the last tick published, whatever happens to the candidates
+		if g := set(rd("netmap")); fmt.Sprint(g) != fmt.Sprint(nm.pubL) {
+			return viol("published-map-moved", fmt.Sprintf("netmap()=%v, the last tick published %v", g, nm.pubL))
+		}
+		if g := set(rd("snapshot", int64(0))); fmt.Sprint(g) != fmt.Sprint(nm.pubL) {
+			return viol("published-map-moved", fmt.Sprintf("snapshot(0)=%v, the last tick published %v", g, nm.pubL))
+		}
+		if g := set(rd("listNodes")); fmt.Sprint(g) != fmt.Sprint(nm.pubV) {
+			return viol("published-map-moved", fmt.Sprintf("listNodes()=%v, the last tick published %v", g, nm.pubV))
 		}
 	}
 	if d.Mode == "C06" || d.Mode == "C06bare" {
